@@ -1041,7 +1041,14 @@ def accumarray(group_idx, a, func="sum", size=None, fill_value=0, dtype=None, ax
         return aggregate(group_idx, a, func=func, size=size, fill_value=fill_value, dtype=dtype, axis=axis, **kw)
     a = np.asarray(a, dtype=object)
     if a.ndim == 0:
-        a = np.full(group_idx.shape[-1:], a.item(), dtype=object)
+        # numpy_groupies accepts a scalar `a` only for sum / prod / len; other named reducers raise ValueError and a
+        # generic callable fails on indexing the 0-d array (pyttb reaches this through np.squeeze of a 1 x 1 value column)
+        if func in ("sum", sum, np.sum, "add", "prod", np.prod, "len", len):
+            a = np.full(group_idx.shape[-1:], a.item(), dtype=object)
+        elif callable(func) and func not in (max, np.max, np.amax, min, np.min, np.amin, np.mean, np.std, np.var, np.any, np.all):
+            raise IndexError("too many indices for array: array is 0-dimensional, but 1 were indexed")
+        else:
+            raise ValueError("scalar inputs are supported only for 'sum', 'prod' and 'len'")
     if group_idx.ndim == 2:
         # multi-dimensional group index (ndim x n)
         dims = tuple(int(s) for s in size) if size is not None else tuple(int(group_idx[k].max()) + 1 for k in range(group_idx.shape[0]))
